@@ -417,6 +417,24 @@ pub fn unimplemented(r: &mut Rng) -> String {
     }
 }
 
+/// "Near misses": implemented finals with meaningful parameters but an unimplemented private
+/// marker or intermediate - inert by C20, one character away from something that is not.
+pub fn near_miss(r: &mut Rng) -> String {
+    let fin = *r.pick(&["h", "l", "h", "l", "m", "H", "J", "K", "r", "A", "B", "L", "M", "P", "@", "X", "S", "T", "b", "d", "g", "W", "s", "u", "p", "t", "G", "f"]);
+    let params = *r.pick(&["4", "20", "4;20", "6", "7", "25", "1", "1047", "1049", "1048", "47", "2", "3", "5", "1;1", "2;3", "31", "7;6", "8;3;3", "", "0"]);
+    match r.n(5) {
+        0 => format!("{}{}{}{}", csi(r), r.pick(&["<", "=", ">"]), params, fin),
+        1 => format!("{}{}{}{}", csi(r), params, r.pick(&[" ", "\"", "$", "#", "'", "*", "+", "/", "!"]), if fin == "p" { "q" } else { fin }),
+        2 => {
+            // '?' with an implemented non-mode final, or with h/l and non-DEC numbers
+            let f2 = if fin == "h" || fin == "l" { "m" } else { fin };
+            format!("{}?{}{}", csi(r), params, f2)
+        }
+        3 => format!("{}?{}{}", csi(r), r.pick(&["4", "20", "2", "3", "5", "8", "12", "1000", "2004", "1046", "1050", "4;20"]), r.pick(&["h", "l"])),
+        _ => format!("{}{}{}", csi(r), r.pick(&["1", "6", "7", "25", "47", "1047", "1048", "1049", "1;6", "5", "3"]), r.pick(&["h", "l"])),
+    }
+}
+
 pub fn resets(r: &mut Rng) -> String {
     match r.n(3) {
         0 => format!("{}!p", csi(r)),
@@ -473,10 +491,10 @@ pub fn token(r: &mut Rng, w: &Weights, cols: usize, rows: usize) -> String {
     take!(w.decstr, format!("{}!p", csi(r)));
     take!(w.ris, "\x1bc".to_string());
     let _ = k;
-    if r.chance(1, 2) {
-        control_string(r)
-    } else {
-        unimplemented(r)
+    match r.n(5) {
+        0 | 1 => control_string(r),
+        2 => near_miss(r),
+        _ => unimplemented(r),
     }
 }
 
